@@ -29,11 +29,16 @@ func (e E2) Error() string { return "e2" }
 
 type Named []int
 
+type Holder struct{ X any }
+
 var (
 	GP   *T
 	GP2  = &T{}
 	GS   []int
 	GE   error
+	GX   any
+	PX   = &GX
+	HX   = &Holder{}
 	Sink int
 )
 `
@@ -174,6 +179,8 @@ func (g *gen) expr(ty string, d int) string {
 		add(func() string { g.feat["type-assert"] = true; return sub("any") + ".(error)" })
 		add(func() string { return g.q("GE") })
 	case "any":
+		add(func() string { g.feat["load-interface-through-pointer"] = true; return "*" + g.q("PX") })
+		add(func() string { g.feat["load-interface-field"] = true; return g.q("HX") + ".X" })
 		add(func() string { g.feat["typed-nil-in-iface"] = true; return "any(" + sub("*E") + ")" })
 		add(func() string { g.feat["typed-nil-in-iface"] = true; return "any(" + sub("*T") + ")" })
 		add(func() string { return "any(1)" })
@@ -217,6 +224,10 @@ func (g *gen) ret(ind int) {
 	}
 	var rs []string
 	for _, r := range g.self.results {
+		if f := g.fresh(r); f != "" && g.pick("retfresh", 4) == 0 {
+			rs = append(rs, f) // a value that is never nil
+			continue
+		}
 		if g.pick("retlocal", 3) != 0 {
 			rs = append(rs, local(r, g.pick("loc", 2)))
 		} else {
@@ -248,6 +259,42 @@ func (g *gen) retWith(ind int, v, ty string) bool {
 	}
 	g.w(ind, "return %s", strings.Join(rs, ", "))
 	return true
+}
+
+// fresh returns an expression of type ty that is never nil, "" if there is none.
+func (g *gen) fresh(ty string) string {
+	switch ty {
+	case "*T":
+		return "&" + g.q("T") + "{}"
+	case "[]int":
+		return "[]int{1}"
+	case "map[string]*T":
+		return "map[string]*" + g.q("T") + "{}"
+	case "chan int":
+		return "make(chan int)"
+	case "func() int":
+		return "func() int { return 2 }"
+	case "error":
+		return "&" + g.q("E") + "{}"
+	case "any":
+		return "any(3)"
+	case "*E":
+		return "&" + g.q("E") + "{}"
+	}
+	return ""
+}
+
+// globalOf returns the package-level variable of type ty, "" if there is none.
+func (g *gen) globalOf(ty string) string {
+	switch ty {
+	case "*T":
+		return g.q("GP")
+	case "[]int":
+		return g.q("GS")
+	case "error":
+		return g.q("GE")
+	}
+	return ""
 }
 
 func (g *gen) block(ind, d int) {
@@ -299,6 +346,18 @@ func (g *gen) stmt(ind, d int) {
 			g.w(ind, "}")
 		}
 	case 6:
+		if g.pick("globalret", 2) == 0 {
+			// return a value loaded straight from a package-level variable on one path
+			for _, r := range g.self.results {
+				if gl := g.globalOf(r); gl != "" {
+					g.feat["return-global-on-one-path"] = true
+					g.w(ind, "if %s {", []string{"b", "a > 1", "!b", "a == 0"}[g.pick("cond", 4)])
+					g.retWith(ind+1, gl, r)
+					g.w(ind, "}")
+					return
+				}
+			}
+		}
 		g.w(ind, "if a == 3 && b {")
 		g.w(ind+1, "panic(\"boom\")")
 		g.w(ind, "}")
@@ -343,12 +402,13 @@ func (g *gen) stmt(ind, d int) {
 			g.w(ind, "%s = %s", l, g.expr(src, 2))
 		}
 		g.w(ind, "switch v := %s.(type) {", l)
-		if g.pick("nilcase", 2) == 0 {
+		multiFirstPre := src == "any" && g.pick("multifirst", 2) == 0
+		if !multiFirstPre && g.pick("nilcase", 2) == 0 {
 			g.feat["type-switch-nil-case"] = true
 			g.w(ind, "case nil:")
 			g.block(ind+1, d-1)
 		}
-		multiFirst := src == "any" && g.pick("multifirst", 2) == 0
+		multiFirst := multiFirstPre
 		if !multiFirst {
 			g.w(ind, "case *%s:", g.q("E"))
 			g.w(ind+1, "%s = v", local("*E", g.pick("loc", 2)))
@@ -358,7 +418,12 @@ func (g *gen) stmt(ind, d int) {
 			g.w(ind+1, "%s = v", local("*T", g.pick("loc", 2)))
 			if multiFirst {
 				g.feat["type-switch-multi"] = true
-				g.w(ind, "case []int, map[string]*%s, *%s:", g.q("T"), g.q("E"))
+				if g.pick("nilinmulti", 2) == 0 {
+					g.feat["type-switch-multi-with-nil"] = true
+					g.w(ind, "case nil, []int, map[string]*%s, *%s:", g.q("T"), g.q("E"))
+				} else {
+					g.w(ind, "case []int, map[string]*%s, *%s:", g.q("T"), g.q("E"))
+				}
 				if g.pick("retv", 2) != 0 || !g.retWith(ind+1, "v", "any") {
 					g.w(ind+1, "%s = v", local("any", g.pick("loc", 2)))
 				} else {
